@@ -118,3 +118,92 @@ Proof.
     rewrite IH. now rewrite app_assoc. }
   apply G.
 Qed.
+
+(* the literal index/swap reading of the double loop is the structural one *)
+Section SortIdx.
+Context {A : Type}.
+Variable comp : A -> A -> bool.
+Variable d : A.
+
+Lemma upd_app_mid : forall (pre : list A) x r v, upd (pre ++ x :: r) (length pre) v = pre ++ v :: r.
+Proof. induction pre as [|p pre IH]; intros; cbn [app length upd]; [reflexivity|]. now rewrite IH. Qed.
+
+Lemma swap_mid : forall (pre done todo : list A) x y,
+  swap d (pre ++ x :: done ++ y :: todo) (length pre) (length pre + 1 + length done) =
+  pre ++ y :: done ++ x :: todo.
+Proof.
+  intros pre done todo x y. unfold swap.
+  assert (Ej : nth (length pre + 1 + length done) (pre ++ x :: done ++ y :: todo) d = y).
+  { replace (pre ++ x :: done ++ y :: todo) with ((pre ++ x :: done) ++ y :: todo)
+      by (rewrite <- app_assoc; reflexivity).
+    replace (length pre + 1 + length done) with (length (pre ++ x :: done))
+      by (rewrite app_length; cbn [length]; lia).
+    apply nth_middle. }
+  rewrite Ej, nth_middle, upd_app_mid.
+  replace (pre ++ y :: done ++ y :: todo) with ((pre ++ y :: done) ++ y :: todo)
+    by (rewrite <- app_assoc; reflexivity).
+  replace (length pre + 1 + length done) with (length (pre ++ y :: done))
+    by (rewrite app_length; cbn [length]; lia).
+  rewrite upd_app_mid, <- app_assoc. reflexivity.
+Qed.
+
+Lemma inner_fold : forall (todo : list A) x done pre,
+  fold_left (fun l j => if comp (nth (length pre) l d) (nth j l d) then swap d l (length pre) j else l)
+            (seq (length pre + 1 + length done) (length todo)) (pre ++ x :: done ++ todo) =
+  let (x', r') := inner comp x todo in pre ++ x' :: done ++ r'.
+Proof.
+  induction todo as [|y t IH]; intros x done pre; cbn [length seq fold_left inner]; [reflexivity|].
+  assert (Ej : nth (length pre + 1 + length done) (pre ++ x :: done ++ y :: t) d = y).
+  { replace (pre ++ x :: done ++ y :: t) with ((pre ++ x :: done) ++ y :: t)
+      by (rewrite <- app_assoc; reflexivity).
+    replace (length pre + 1 + length done) with (length (pre ++ x :: done))
+      by (rewrite app_length; cbn [length]; lia).
+    apply nth_middle. }
+  rewrite Ej, nth_middle.
+  replace (S (length pre + 1 + length done)) with (length pre + 1 + length (done ++ [x]))
+    by (rewrite app_length; cbn [length]; lia).
+  destruct (comp x y) eqn:C.
+  - rewrite swap_mid.
+    replace (pre ++ y :: done ++ x :: t) with (pre ++ y :: (done ++ [x]) ++ t)
+      by (rewrite <- app_assoc; reflexivity).
+    rewrite IH. destruct (inner comp y t) as [x' r']. now rewrite <- app_assoc.
+  - replace (length (done ++ [x])) with (length (done ++ [y])) by (rewrite !app_length; reflexivity).
+    replace (pre ++ x :: done ++ y :: t) with (pre ++ x :: (done ++ [y]) ++ t)
+      by (rewrite <- app_assoc; reflexivity).
+    rewrite IH. destruct (inner comp x t) as [x' r']. now rewrite <- app_assoc.
+Qed.
+
+Lemma inner_idx_spec : forall (pre rest : list A) x,
+  inner_idx comp d (pre ++ x :: rest) (length pre) = let (x', r') := inner comp x rest in pre ++ x' :: r'.
+Proof.
+  intros pre rest x. unfold inner_idx.
+  replace (length (pre ++ x :: rest) - S (length pre)) with (length rest)
+    by (rewrite app_length; cbn [length]; lia).
+  replace (S (length pre)) with (length pre + 1 + length (@nil A)) by (cbn [length]; lia).
+  exact (inner_fold rest x [] pre).
+Qed.
+
+Lemma outer_fold : forall n (pre rest : list A), length rest = n ->
+  fold_left (inner_idx comp d) (seq (length pre) n) (pre ++ rest) = pre ++ isort_n comp n rest.
+Proof.
+  induction n as [|n IH]; intros pre rest L; destruct rest as [|x r]; try discriminate L; cbn [seq fold_left isort_n].
+  - reflexivity.
+  - rewrite inner_idx_spec. destruct (inner comp x r) as [x' r'] eqn:E.
+    pose proof (inner_length comp _ _ _ _ E) as L'. cbn [length] in L.
+    replace (pre ++ x' :: r') with ((pre ++ [x']) ++ r') by (rewrite <- app_assoc; reflexivity).
+    replace (S (length pre)) with (length (pre ++ [x'])) by (rewrite app_length; cbn [length]; lia).
+    rewrite IH by lia. now rewrite <- app_assoc.
+Qed.
+
+Theorem isort_idx_eq : forall l : list A, isort_idx comp d l = insertion_sort comp l.
+Proof. intro l. unfold isort_idx, insertion_sort. exact (outer_fold (length l) [] l eq_refl). Qed.
+End SortIdx.
+
+Lemma array_identities_all : forall (A : Type) (l : list A) (d : A), l <> [] ->
+  arr_back l = Some (last l d) /\ arr_front l = Some (hd d l) /\
+  (forall i, i < length l -> arr_index l i = Some (nth i l d)) /\
+  (forall ls : list (list A), arr_concat ls = concat ls).
+Proof.
+  intros A l d H. split; [now apply arr_back_last|]. split; [now apply arr_front_hd|].
+  split; [intros i Hi; now apply arr_index_nth | apply arr_concat_concat].
+Qed.
